@@ -152,8 +152,10 @@ CLAIMS['C04'] = {
              'tree (entry + reservations on it) plus the frames hidden by Offline (H i) equal its free frames EXACTLY (fast = exact - offline, tree by tree).'
              ' Theorem conc_quiescent_counters_exact: at the quiescent end of EVERY interleaving of any number of threads using the lower allocator every '
              'huge-entry counter equals the number of free frames of its bitfield again (and is never above it in between).'
-             + PART + 'that the programs tree_stats()/validate() add these counters up without panic, stats_at(order 0)/is_free, and the '
-             'end-of-interleaving statement for the tree counters are carried by the accounting oracle of the sequential and concurrent correspondence.'),
+             ' Theorem tree_stats_total: the program tree_stats() never panics, reads only and returns the sum of the tree counters plus the counters of the '
+             'present reservations.' + PART + 'validate(), stats_at(order 0) / is_free, the identification of that sum with the per-tree sums (a partition '
+             'argument over the slot ranges), and the end-of-interleaving statement for the tree counters are carried by the accounting oracle of the '
+             'sequential and concurrent correspondence.'),
     'note': TB + ' Upper-level theorems hold for configurations satisfying CfgOk (class ids < 8, ordered policy, tree size < 2^19: every configuration of the repository; derived from elementary checks by CfgOk.of_checks); they depend on the C23 theorem (bv_decide axioms) through the lower search.',
     'technique': 'Lean 4 theorems from the lower and upper invariants + accounting oracle in the sequential differential and at quiescent ends of co-simulated interleavings',
 }
@@ -195,7 +197,8 @@ CLAIMS['C09'] = {
              'tree, stats) runs to completion in the sequential semantics with outcome ok: every panic site of lower.rs, bitfield.rs, trees.rs, '
              'local.rs and llfree.rs on these paths (asserts, unwrap/expect, slice indexing, checked arithmetic, bit-field setter bounds) is an '
              'explicit panic outcome of the model and is unreachable; new_then_history_never_panics includes the free-all / allocate-all construction for '
-             'every frame count incl. 0.' + PART + 'Init::Recover, tree_stats/validate/stats_at(order 0)/is_free are carried by the correspondence '
+             'every frame count incl. 0.' ' tree_stats_never_panics: the statistics program never panics and reads only; Init::Recover from every weak-invariant state: C05 '
+             '(recover_then_history).' + PART + 'validate / stats_at(order 0) / is_free are carried by the correspondence '
              '(every call under catch_unwind in an overflow-checked build).'),
     'note': TB + ' Upper-level theorems hold for configurations satisfying CfgOk (class ids < 8, ordered policy, tree size < 2^19: every configuration of the repository; derived from elementary checks by CfgOk.of_checks); they depend on the C23 theorem (bv_decide axioms) through the lower search.',
     'technique': 'Lean 4 total-correctness proof over all call histories (no-panic = Outcome.ok in the sequential semantics) + sequential differential with panic capture',
